@@ -174,12 +174,25 @@ type Ticker struct {
 	stop bool
 }
 
+// AutoTick, in virtual mode, makes every new ticker deliver ticks without end and without waiting (a polling loop over it
+// runs through its iterations at once); such tickers are not kept and Tick does not see them.
+var AutoTick bool
+
+// AutoTickers counts the tickers created under AutoTick.
+var AutoTickers int
+
 func NewTicker(d time.Duration) *Ticker {
 	mu.Lock()
 	defer mu.Unlock()
 	if !virtual {
 		rt := time.NewTicker(d)
 		return &Ticker{C: rt.C, real: rt, d: d}
+	}
+	if AutoTick {
+		c := make(chan time.Time)
+		close(c)
+		AutoTickers++
+		return &Ticker{C: c, d: d, stop: true}
 	}
 	c := make(chan time.Time, 1)
 	t := &Ticker{C: c, c: c, d: d}
